@@ -29,6 +29,22 @@ func bundleCanon(b *sourcebundle.Bundle, root string, w *BWorld, ops []BOp) stri
 			} else {
 				rel, _ := filepath.Rel(root, lp)
 				lk = append(lk, p.Addr+"//"+sub+"="+rel)
+				// the reverse lookup, several times: with coalesced packages several addresses share the
+				// directory and the answer must not depend on map iteration order (seed C09-c)
+				seen := map[string]bool{}
+				for k := 0; k < 6; k++ {
+					if src, err := b.SourceForLocalPath(lp); err != nil {
+						seen["err"] = true
+					} else {
+						seen[src.String()] = true
+					}
+				}
+				var rv []string
+				for k := range seen {
+					rv = append(rv, k)
+				}
+				sort.Strings(rv)
+				lk = append(lk, "rev:"+rel+"="+strings.Join(rv, "|"))
 			}
 		}
 	}
